@@ -124,11 +124,28 @@ theorem non_normal_rejected (i : PriorInput) (p : Int) (hp : i.polyTrend = some 
     exfalso
     obtain ⟨_, _, _, p', hp', _, hlinAll⟩ := (accept_iff_wellformed i).mp ⟨names, hv⟩
     rw [hp] at hp'; cases hp'
-    obtain ⟨par', hl', hk'⟩ := hlinAll n hlin
+    obtain ⟨par', hl', _, hk'⟩ := hlinAll n hlin
     rw [hl] at hl'; cases hl'
     rcases hk' with h | ⟨h, _⟩
     · exact hk.1 h
     · exact hk.2 h
+
+/-- a linear parameter whose prior is a Normal all right, but not the variable the prior's pymc model holds under that name
+(a same-named variable of another model, an unregistered `.dist()`): the likelihood helper would marginalise over
+`prior.model[name]`, whatever that is - refused -/
+theorem foreign_variable_rejected (i : PriorInput) (p : Int) (hp : i.polyTrend = some p) (n : Name)
+    (hlin : n ∈ linearNames p i.offsets.length) (par : Param) (hl : lookup (envOf i) n = some par)
+    (hr : par.registered = false) : ∃ e, validate i = .error e := by
+  cases hv : validate i with
+  | error e => exact ⟨e, rfl⟩
+  | ok names =>
+    exfalso
+    obtain ⟨_, _, _, p', hp', _, hlinAll⟩ := (accept_iff_wellformed i).mp ⟨names, hv⟩
+    rw [hp] at hp'; cases hp'
+    obtain ⟨par', hl', hr', _⟩ := hlinAll n hlin
+    rw [hl] at hl'; cases hl'
+    rw [hr] at hr'
+    exact Bool.noConfusion hr'
 
 /-- a Normal prior on a linear parameter whose mean / width depends on another random variable of the model is not an
 *independent* Normal: refused (the marginalisation would freeze the parent at one draw) -/
@@ -147,7 +164,7 @@ theorem fcm_only_for_K (i : PriorInput) (p : Int) (hp : i.polyTrend = some p) (n
     exfalso
     obtain ⟨_, _, _, p', hp', _, hlinAll⟩ := (accept_iff_wellformed i).mp ⟨names, hv⟩
     rw [hp] at hp'; cases hp'
-    obtain ⟨par', hl', hk'⟩ := hlinAll n hlin
+    obtain ⟨par', hl', _, hk'⟩ := hlinAll n hlin
     rw [hl] at hl'; cases hl'
     rcases hk' with h | ⟨_, h⟩
     · rw [hk] at h; cases h
@@ -249,20 +266,21 @@ theorem joker_init_iff (poolOk rngOk priorOk : Bool) :
 defined with a Uniform prior and then redefined (later dict entry wins) as FixedCompanionMass -/
 def exGood : PriorInput :=
   { modelOk := true, parsStatus := .ok, polyTrend := some 2, offsetsIterable := true,
-    pars := [⟨.K, some (Dim.vel 0), .otherRV, true⟩, ⟨.P, some Dim.time1, .otherRV, true⟩, ⟨.e, some Dim.one, .otherRV, true⟩,
-             ⟨.omega, some Dim.angle1, .unnamedOp, true⟩, ⟨.M0, some Dim.angle1, .unnamedOp, true⟩, ⟨.s, some (Dim.vel 0), .noOwner, true⟩,
-             ⟨.K, some (Dim.vel 0), .fcm, true⟩, ⟨.v 0, some (Dim.vel 0), .normal, true⟩, ⟨.v 1, some (Dim.vel 1), .normal, true⟩],
-    offsets := [⟨.dv0 1, some (Dim.vel 0), .normal, true⟩] }
+    pars := [⟨.K, some (Dim.vel 0), .otherRV, true, true⟩, ⟨.P, some Dim.time1, .otherRV, true, true⟩, ⟨.e, some Dim.one, .otherRV, true, true⟩,
+             ⟨.omega, some Dim.angle1, .unnamedOp, true, true⟩, ⟨.M0, some Dim.angle1, .unnamedOp, true, true⟩, ⟨.s, some (Dim.vel 0), .noOwner, true, true⟩,
+             ⟨.K, some (Dim.vel 0), .fcm, true, true⟩, ⟨.v 0, some (Dim.vel 0), .normal, true, true⟩, ⟨.v 1, some (Dim.vel 1), .normal, true, true⟩],
+    offsets := [⟨.dv0 1, some (Dim.vel 0), .normal, true, true⟩] }
 
 example : validate exGood = .ok [.P, .e, .omega, .M0, .s, .K, .v 0, .v 1, .dv0 1] := by decide
 example : WellFormed exGood := (accept_iff_wellformed exGood).mp ⟨[.P, .e, .omega, .M0, .s, .K, .v 0, .v 1, .dv0 1], by decide⟩
 -- one broken branch each
 example : validate { exGood with pars := exGood.pars.filter (fun p => p.name ≠ .e) } = .error .value := by decide
-example : validate { exGood with offsets := [⟨.dv0 2, some (Dim.vel 0), .normal, true⟩] } = .error .value := by decide
-example : validate { exGood with pars := exGood.pars ++ [⟨.v 0, some (Dim.vel 0), .normal, false⟩] } = .error .value := by decide
-example : validate { exGood with offsets := [⟨.dv0 1, some (Dim.vel 0), .otherRV, true⟩] } = .error .value := by decide
-example : validate { exGood with pars := exGood.pars ++ [⟨.v 1, some (Dim.vel 0), .normal, true⟩] } = .error .value := by decide
-example : validate { exGood with pars := exGood.pars ++ [⟨.v 0, some (Dim.vel 0), .unnamedOp, true⟩] } = .error .unspecified := by decide
+example : validate { exGood with offsets := [⟨.dv0 2, some (Dim.vel 0), .normal, true, true⟩] } = .error .value := by decide
+example : validate { exGood with pars := exGood.pars ++ [⟨.v 0, some (Dim.vel 0), .normal, false, true⟩] } = .error .value := by decide
+example : validate { exGood with pars := exGood.pars ++ [⟨.v 0, some (Dim.vel 0), .normal, true, false⟩] } = .error .value := by decide
+example : validate { exGood with offsets := [⟨.dv0 1, some (Dim.vel 0), .otherRV, true, true⟩] } = .error .value := by decide
+example : validate { exGood with pars := exGood.pars ++ [⟨.v 1, some (Dim.vel 0), .normal, true, true⟩] } = .error .value := by decide
+example : validate { exGood with pars := exGood.pars ++ [⟨.v 0, some (Dim.vel 0), .unnamedOp, true, true⟩] } = .error .unspecified := by decide
 example : validateData (.multi [.rv false, .rv false]) 1 = .ok 2 := by decide
 example : validateData (.multi [.rv false, .rv false, .rv false]) 1 = .error .value := by decide
 example : validateData (.multi [.rv false, .rv true, .notRV]) 2 = .error .notimpl := by decide
